@@ -3,6 +3,7 @@ use crate::util::Ctx;
 
 pub mod real;
 pub mod c03;
+pub mod c04;
 pub mod c12;
 pub mod c16;
 
@@ -11,6 +12,10 @@ pub fn run(ctx: &mut Ctx) -> bool {
         "C03" => {
             ctx.rule = c03::RULE.into();
             c03::run(ctx)
+        }
+        "C04" => {
+            ctx.rule = c04::RULE.into();
+            c04::run(ctx)
         }
         "C12" => {
             ctx.rule = c12::RULE.into();
